@@ -144,3 +144,131 @@ func runThroughVertex(c *core.Ctx) {
 		violate(fmt.Sprintf("the line passes through polygon vertex (%v, %v); the clipped pieces have total length %v, the intersection of line and polygon has %v", v.X, v.Y, got, wantIn), detail)
 	}
 }
+
+// runHugeBox is the 'huge_box' phase: an ordinary simple line clipped by a box one to three sides of
+// which lie 1e11 .. 1e300 away (the extent of "everything east of x = 3"), the other sides passing
+// through the line's neighbourhood. The far sides never meet the line, so the reference is the
+// Liang-Barsky clip of every segment against the near sides alone. Every violation of this phase
+// is reported under one key: the external clipper computes the crossing of a line segment with a
+// box side of length 1e11 and more from the far end of that side, and the point it returns is
+// off the line by the rounding error of that length.
+func runHugeBox(c *core.Ctx) {
+	r := c.R
+	n := r.IntRange(2, 5)
+	var line []geom.Point
+	for tries := 0; ; tries++ {
+		if tries > 50 {
+			return
+		}
+		line = line[:0]
+		for i := 0; i < n; i++ {
+			p := geom.Point{X: r.Range(-10, 10), Y: r.Range(-10, 10)}
+			if r.Chance(0.3) {
+				p = geom.Point{X: math.Round(p.X), Y: math.Round(p.Y)}
+			}
+			line = append(line, p)
+		}
+		if ok, _, _ := exact.SimplePolyline(gen.EPath(line)); ok {
+			break
+		}
+	}
+	h := func() float64 { return math.Pow(10, r.Range(11, 300)) }
+	// near sides (some), far sides (the rest; at least one)
+	b := geom.Bounds{Min: geom.Point{X: r.Range(-9, 0), Y: r.Range(-9, 0)}, Max: geom.Point{X: r.Range(0, 9), Y: r.Range(0, 9)}}
+	nearMinX, nearMinY, nearMaxX, nearMaxY := true, true, true, true
+	far := 0
+	for far == 0 {
+		if r.Chance(0.4) {
+			b.Min.X, nearMinX = -h(), false
+			far++
+		}
+		if r.Chance(0.4) {
+			b.Min.Y, nearMinY = -h(), false
+			far++
+		}
+		if r.Chance(0.4) {
+			b.Max.X, nearMaxX = h(), false
+			far++
+		}
+		if r.Chance(0.4) {
+			b.Max.Y, nearMaxY = h(), false
+			far++
+		}
+	}
+	// general position: no line vertex within 1e-6 of a near side
+	for _, p := range line {
+		if nearMinX && math.Abs(p.X-b.Min.X) < 1e-6 || nearMaxX && math.Abs(p.X-b.Max.X) < 1e-6 || nearMinY && math.Abs(p.Y-b.Min.Y) < 1e-6 || nearMaxY && math.Abs(p.Y-b.Max.Y) < 1e-6 {
+			return
+		}
+	}
+	// reference
+	wantIn := 0.0
+	for s := 0; s+1 < len(line); s++ {
+		a, q := line[s], line[s+1]
+		t0, t1 := 0.0, 1.0
+		clip := func(p, d float64) { // keeps t with p + t*d >= 0
+			if d == 0 {
+				if p < 0 {
+					t1 = -1
+				}
+				return
+			}
+			t := -p / d
+			if d > 0 {
+				t0 = math.Max(t0, t)
+			} else {
+				t1 = math.Min(t1, t)
+			}
+		}
+		if nearMinX {
+			clip(a.X-b.Min.X, q.X-a.X)
+		}
+		if nearMaxX {
+			clip(b.Max.X-a.X, a.X-q.X)
+		}
+		if nearMinY {
+			clip(a.Y-b.Min.Y, q.Y-a.Y)
+		}
+		if nearMaxY {
+			clip(b.Max.Y-a.Y, a.Y-q.Y)
+		}
+		if t1 > t0 {
+			wantIn += (t1 - t0) * math.Hypot(q.X-a.X, q.Y-a.Y)
+		}
+	}
+	c.Eval()
+	c.Count("huge_box.cases")
+	if wantIn > 0 {
+		c.Count("huge_box.line_enters_the_box")
+	}
+	hs := core.NewHasher()
+	gen.HashGeom(hs, &b)
+	gen.HashGeom(hs, geom.LineString(line))
+	c.Nontrivial(hs.Sum())
+	var pgl geom.Polygonal = &b
+	if r.Chance(0.4) {
+		pgl = geom.Polygon{{b.Min, {X: b.Max.X, Y: b.Min.Y}, b.Max, {X: b.Min.X, Y: b.Max.Y}, b.Min}}
+		c.Count("huge_box.as_polygon")
+	}
+	detail := map[string]interface{}{"line": gen.Dump(geom.LineString(line)), "box": gen.Dump(pgl.(geom.Geom)), "inside_length": wantIn}
+	var res geom.Linear
+	if c.Guard("LineString.Clip(huge box)", detail, func() { res = geom.LineString(line).Clip(pgl) }) {
+		return
+	}
+	var pieces geom.MultiLineString
+	switch t := res.(type) {
+	case nil:
+	case geom.MultiLineString:
+		pieces = t
+	case geom.LineString:
+		pieces = geom.MultiLineString{t}
+	}
+	detail["result"] = gen.Dump(pieces)
+	got := 0.0
+	for _, p := range pieces {
+		got += exact.Length(gen.EPath(p))
+	}
+	if !(math.Abs(got-wantIn) <= 1e-9*math.Max(wantIn, 1)) {
+		c.Violate("box-far-larger-than-line", fmt.Sprintf("box with sides 1e11 and more away: the clipped pieces have total length %v, the intersection of line and box has %v", got, wantIn), detail)
+	}
+}
